@@ -524,13 +524,14 @@ def rule_E(F, R):
                     if n2:
                         thr_names.add(n2)
     cmp_ok = None
+    status_pol = []
     status_ok = False
     parse_ok = False
     modified_ok = False
-    for cp in closures:
-        cb = F.bodies[cp]
+    # the predicate may sit in closures (iterator chain) or in the function itself (a loop)
+    for cb in [F.bodies[cp] for cp in closures] + [b]:
         try:
-            paths = SymExec(cb, cfg_of(cb)).run()
+            paths = SymExec(cb, cfg_of(cb), max_paths=4000).run()
         except Exception:
             continue
         for p in paths:
@@ -545,9 +546,21 @@ def rule_E(F, R):
                         cmp_ok = (rel == "lt", "date %s threshold" % rel)
                     elif thr0 and not thr1:
                         cmp_ok = (rel == "gt", "threshold %s date" % rel)
-                if nm.endswith("PartialEq::eq") and _has(e["args"], lambda z: z[0] == "C" and z[2].endswith("Status::to_taskmap") and _has(z, lambda y: y[0] == "A" and y[2] == "Deleted")):
-                    status_ok = True
-                if nm.endswith("PartialEq::eq") and _has(e["args"], lambda z: z == ("K", '"deleted"')):
+                is_status_cmp = re.search(r"PartialEq::(eq|ne)$", nm) and (_has(e["args"], lambda z: z[0] == "C" and z[2].endswith("Status::to_taskmap") and _has(z, lambda y: y[0] == "A" and y[2] == "Deleted")) or _has(e["args"], lambda z: z == ("K", '"deleted"')) or _has(e["args"], lambda z: z[0] in ("P", "U") and "deleted" in str(z).lower()))
+                if is_status_cmp:
+                    positive = nm.endswith("::eq")
+                    cmpv = ("C", e["id"])
+                    # (a) the comparison is what the predicate closure returns
+                    if p.ret and p.ret[0] == "C" and p.ret[1] == e["id"]:
+                        status_pol.append(positive)
+                    elif p.ret and p.ret[0] == "U" and p.ret[1] == "Not" and _has(p.ret, lambda z: z[0] == "C" and z[1] == e["id"]):
+                        status_pol.append(not positive)
+                    else:
+                        # (b) the path goes on to delete the task: under which outcome of the comparison?
+                        deletes = [d for d in p.events if d["callee"].endswith("TaskData::delete") and d["id"] > e["id"]]
+                        outs = [o for (a, o, _bb) in p.atoms if _has(a, lambda z: z[0] == "C" and z[1] == e["id"])]
+                        if deletes and outs:
+                            status_pol.append(outs[-1] is positive)
                     status_ok = True
                 if re.search(r"str>::parse$|<impl str>::parse", nm):
                     parse_ok = True
@@ -557,7 +570,7 @@ def rule_E(F, R):
                     pass
             # upvar-compared status (captured `deleted` string)
             for (a, o, _bb) in p.atoms:
-                if a[0] == "call" and a[1].endswith("PartialEq::eq") and _has(a[2], lambda z: z[0] == "P" and "deleted" in str(z[1]).lower()):
+                if a[0] == "call" and re.search(r"PartialEq::(eq|ne)$", a[1]) and _has(a[2], lambda z: z[0] == "P" and "deleted" in str(z[1]).lower()):
                     status_ok = True
     if cmp_ok is None:
         R.violation("E1", subj, "no-age-comparison", "no comparison between the task's modification date and the threshold", where(b))
@@ -582,7 +595,9 @@ def rule_E(F, R):
             for st in bl["s"]:
                 if st["k"] == "assign" and st["r"]["k"] == "agg" and st["r"].get("adt", "").endswith("task::status::Status"):
                     others.add(st["r"]["variant"])
-    if status_ok and others <= {"Deleted"}:
+    if status_ok and status_pol and not all(status_pol):
+        R.violation("E1", subj, "status-test", "expire_tasks selects the tasks whose status is NOT deleted", where(b))
+    elif status_ok and others <= {"Deleted"}:
         R.ok("E1", "status test against Status::Deleted's storage string", where(b))
     else:
         R.violation("E1", subj, "status-test", "expire_tasks selects on status %s; documented: deleted" % (sorted(others) or "?"), where(b))
